@@ -667,7 +667,7 @@ inline void accountConc(hc::Stats& st, const Case& c, const Result& r) {
 // (P=3: one full root leaf, the next insert splits the root; P=5: root [20] over [10] and the full leaf [30,40,50]; ...),
 // every assignment of alphabet keys to the operation slots (thread lists in non-decreasing order: threads are symmetric)
 // x every schedule up to the preemption bound.
-inline int dfsMain(const hc::Args& args, hc::Stats& st, const std::string& tag, int structure) {
+inline int dfsMain(const hc::Args& args, hc::Stats& st, const hc::Pending& pending, const std::string& tag, int structure) {
     const int P = (int)args.num("prefill", 3), nops = (int)args.num("nops", 1), bound = (int)args.num("bound", 2);
     const int nthreads = (int)args.num("threads", 2);
     const bool hints = args.num("hints", 0) != 0;
@@ -724,7 +724,15 @@ inline int dfsMain(const hc::Args& args, hc::Stats& st, const std::string& tag, 
             vsched::DfsSource dfs(bound);
             do {
                 dfs.beginRun();
+                {
+                    // the schedule about to run = the choices on the DFS stack followed by "first candidate" choices, which is
+                    // what a ByteSource replays for these bytes with tail 0: a sanitizer abort leaves a replayable case behind
+                    Case pc = c;
+                    for (auto& f : dfs.stack) pc.sched.push_back((std::uint8_t)f.chosen);
+                    pending.set(pc.text());
+                }
                 Result r = runCase(c, &dfs);
+                pending.clear();
                 schedules++;
                 Case rc = c;
                 for (std::size_t i = 0; i < dfs.depth; i++) rc.sched.push_back((std::uint8_t)dfs.stack[i].chosen);
